@@ -219,6 +219,23 @@ def _search(rec, ctx):
     for i, s in enumerate(ctx.shard(list(lex.string_concat_matrix(xonsh=False)) + list(lex.string_concat_matrix(xonsh=True)))):
         check(rec, {"src": ("x = " + s + "\n") if i % 2 else ("f(" + s + ")"), "stream": "string-concat-matrix"})
 
+    # the specialised diagnostics (invalid_* rules, second pass) are hand-written code paths of their own: C11's targeted
+    # errors and C02's small valid statements, each with every single-token deletion and with each of a dozen
+    # punctuation tokens inserted at every position
+    from .c02 import SMALL_VALID
+    from .c11 import TARGETED
+
+    PUNCT = ["*", "**", ",", "=", "(", ")", ":", "[", "]", ".", "if", "for", "in", "lambda", "not", "as"]
+    for base in ctx.shard([t for t in TARGETED if len(t) < 200] + SMALL_VALID):
+        toks = mutate.lex(base)
+        check(rec, {"src": base, "stream": "diagnostic-neighbourhood"})
+        for i, t in enumerate(toks):
+            if not t.strip():
+                continue
+            check(rec, {"src": "".join(toks[:i] + toks[i + 1 :]), "stream": "diagnostic-neighbourhood"})
+            for v in PUNCT:
+                check(rec, {"src": "".join(toks[:i] + [v, " "] + toks[i:]), "stream": "diagnostic-neighbourhood"})
+
     # version-gated syntax (valid, broken and mutated) under every py_version and verbose
     from .c15 import GATED
 
